@@ -479,19 +479,19 @@ Section Replay.
   Variable k : Z.
   Variable orc : pos -> Z -> Z -> pixel.
 
-  (* the second half of walk_callback (merge.py:187-202): merge the images read
-     before and write the parent *)
+  (* the second half of walk_callback (merge.py:182-211): merge the images read
+     before and write the parent (or unlink whatever lies there when nothing was read) *)
   Definition cb_write (cs : list (option img)) (st : store) (p : pos) : option store :=
     match merge_tiles_gen u dflt k cs with
     | None => None
-    | Some None => Some st
+    | Some None => Some (st_set st p dflt None)
     | Some (Some m) => write_image dflt st p m None
     end.
 
   Lemma walk_callback_split st p :
     walk_callback_gen u dflt k orc st p = cb_write (child_files orc dflt st p) st p.
   Proof.
-    unfold walk_callback_gen, cb_write, child_files.
+    unfold walk_callback_gen, walk_callback_var, cb_write, child_files.
     assert (E : map (fun c => rres_image (orc c) (read_image dflt st c DNone None None)) (children p)
                 = map (fun c => option_map (decode (orc c)) (st c dflt)) (children p)).
     { apply map_ext. intros c. apply read_none_image. }
@@ -537,9 +537,13 @@ Section Replay.
     | Some st' => cascade_gen u dflt k orc st' b
     end.
   Proof.
-    revert st. induction a as [|p a IH]; intros st; [reflexivity|]. cbn [app cascade_gen].
+    revert st. induction a as [|p a IH]; intros st; [reflexivity|]. cbn [app]. rewrite !cascade_gen_cons.
     destruct (walk_callback_gen u dflt k orc st p); [apply IH|reflexivity].
   Qed.
+
+  Lemma cascade_gen_single st p :
+    cascade_gen u dflt k orc st [p] = walk_callback_gen u dflt k orc st p.
+  Proof. rewrite cascade_gen_cons. destruct (walk_callback_gen u dflt k orc st p); reflexivity. Qed.
 
   Lemma callback_keeps_other_children st p st' q :
     walk_callback_gen u dflt k orc st p = Some st' -> ~ In p (children q) ->
@@ -549,7 +553,7 @@ Section Replay.
     unfold child_files. apply map_ext_in. intros c Hc.
     destruct (merge_tiles_gen u dflt k (MergeP.child_files orc dflt st p)) as [[m|]|]; [| |contradiction].
     - rewrite Eff. rewrite pos_eqb_neq; [reflexivity|]. intros ->. contradiction.
-    - subst st'. reflexivity.
+    - rewrite Eff. rewrite pos_eqb_neq; [reflexivity|]. intros ->. contradiction.
   Qed.
 
   Variable O : list pos.
@@ -571,7 +575,7 @@ Section Replay.
       destruct (fold_left ev_step (rev lg) (Some (st0, []))) as [[st pend]|].
       + destruct IH as [IHc IHs]. destruct b.
         * (* End of p *)
-          rewrite ends_cons_e. cbn [rev]. rewrite cascade_gen_app, IHc. cbn [cascade_gen ev_step].
+          rewrite ends_cons_e. cbn [rev]. rewrite cascade_gen_app, IHc. rewrite cascade_gen_single. cbn [ev_step].
           pose proof HS as (S1 & S2 & S3 & S4 & S5).
           assert (Hpe : ~ In p (ends lg)).
           { rewrite ends_cons_e in S3. apply NoDup_cons_iff in S3. tauto. }
